@@ -6,7 +6,7 @@ MODULE = "StorageModel.Properties.C06"
 THEOREMS = ["inv_init", "inv_step", "inv_tx", "inv_reachable", "absent_no_trace", "delete_no_trace",
             "delete_no_trace_owner", "cascade_no_trace", "boss_cascade_no_trace", "tx_removed_no_trace", "delete_forgets", "recreate_fresh", "recreate_accepted_iff",
             "recreate_as_if_never_existed", "child_create_over_parent_reindexes", "child_create_over_parent_no_trace",
-            "child_create_empty_name_rejected", "rc_and_child_links_no_trace", "cascade_witness", "cycle_witness"]
+            "child_create_empty_name_rejected", "rc_and_child_links_no_trace", "cascade_witness", "cycle_witness", "extended_child_witness"]
 
 A_IDS = {"61", "62", "63", "64", "65"}
 
@@ -33,9 +33,11 @@ def stats_of(case, impl):
                 inc("op_ua_patch")
             if f[0] == "cc" and f[9] != ".":
                 inc("op_cc_with_child_owned_links")
-            if f[0] in ("ca", "ua", "cc") and f[6] not in ("~", "-"):
+            if f[0] in ("ca", "ua", "cc", "c2", "u2") and f[6] not in ("~", "-"):
                 inc("op_with_dep")
-            nb = {"ca": 8, "ua": 9, "cc": 10}.get(f[0])
+            if f[0] == "u2" and f[9] != "*":
+                inc("op_u2_patch")
+            nb = {"ca": 8, "ua": 9, "cc": 10, "c2": 9, "u2": 10}.get(f[0])
             if nb is not None and len(f) > nb and f[nb] not in ("~", "-"):
                 inc("op_with_boss")
                 if f[nb] == f[1]:
@@ -45,13 +47,15 @@ def stats_of(case, impl):
     ever_deleted = set()
     for tx, r in zip(txs, recs):
         inc("res_" + r["res"].split("@")[0].replace(":", "_"))
+        if len(tx) == 1 and tx[0][:2] in ("c2", "u2", "d2", "cc", "dc"):
+            inc("single_" + tx[0][:2] + "_" + r["res"].split("@")[0].replace(":", "_"))
         d = r["extra"][0] if r["extra"] else "."
         if d != ".":
             for item in d.split(","):
                 inc("deletes_validated")
                 inc("verdict_" + item.split("=")[1].replace("/", "_"))
             gone_a = [item for item in d.split(",") if item.split("=")[0] in A_IDS]
-            if len(tx) == 1 and tx[0][:3] in ("da:", "dc:") and len(gone_a) > 1:
+            if len(tx) == 1 and tx[0][:3] in ("da:", "dc:", "d2:") and len(gone_a) > 1:
                 inc("boss_cascades")
                 inc("boss_cascade_victims_%d" % (len(gone_a) - 1))
         ids = set()
